@@ -4611,6 +4611,30 @@ impl GlobalInferenceCtx<'_> {
                             let previous_ty = self.infer_expr(*previous)?;
 
                             match previous_ty.as_ref() {
+                                // the module itself must be const too (`m := mod; x : m.T`)
+                                Ty::File(_)
+                                    if matches!(
+                                        &self.bodies[*previous],
+                                        Expr::Local(local) if self.bodies[*local].mutable
+                                    ) =>
+                                {
+                                    let Expr::Local(local) = &self.bodies[*previous] else {
+                                        unreachable!()
+                                    };
+
+                                    self.diagnostics.push(TyDiagnostic {
+                                        kind: TyDiagnosticKind::LocalTyIsMutable,
+                                        file: self.loc.file(),
+                                        expr: Some(*previous),
+                                        range: self.bodies.range_for_expr(*previous),
+                                        help: Some(TyDiagnosticHelp {
+                                            kind: TyDiagnosticHelpKind::MutableVariable,
+                                            range: self.bodies[*local].range,
+                                        }),
+                                    });
+
+                                    Ty::Unknown.into()
+                                }
                                 Ty::File(file) => self.naive_global_to_ty(
                                     Fqn {
                                         file: *file,
